@@ -36,6 +36,9 @@ pub enum Op {
     AcquireCancel(usize, usize),
     /// Several tasks start acquiring within one step, in this (arrival) order.
     Burst(Vec<(usize, usize)>),
+    /// Several simple operations within one step: no task runs between them (e.g. a permit is
+    /// released and the clock jumps before the sleeping waiter is polled again).
+    Group(Vec<Op>),
 }
 
 #[derive(Debug, Clone, Serialize, Deserialize, Hash)]
@@ -45,14 +48,61 @@ pub struct Case {
     ops: Vec<Op>,
 }
 
-fn gen_case(ch: &mut Choices) -> Case {
+pub fn gen_case(ch: &mut Choices) -> Case {
     let burst = 1 + ch.below(8);
     let r = ch.pick(&[1u64, 7, 1_000, 1_000_000_000, 10_000_000_000]);
     let n = 2 + ch.below(30);
     let mut ops = vec![];
     let mut next = 0usize;
     let mut live: Vec<usize> = vec![];
+    // greedy phrase: take single permits and give them back at once, `k` times, at one clock instant -
+    // whatever the bucket holds (or wrongly believes it holds) is pulled out and counted by the window oracle
+    let drain = |ops: &mut Vec<Op>, live: &mut Vec<usize>, next: &mut usize, k: usize| {
+        for _ in 0..k {
+            ops.push(Op::Acquire(*next, 1));
+            ops.push(Op::Release(*next));
+            live.push(*next);
+            *next += 1;
+        }
+    };
     for _ in 0..n {
+        if ch.chance(1, 12) {
+            // directed phrase: hold some permits, empty the bucket, park a waiter in its sleep, then return held
+            // permits and jump the clock within one step (the release is processed at the new time before the
+            // sleeper runs), and finally pull out everything that is available
+            let held = 1 + ch.below(burst.min(3));
+            let first = next;
+            for _ in 0..held {
+                ops.push(Op::Acquire(next, 1));
+                live.push(next);
+                next += 1;
+            }
+            let k = (burst - held) + ch.below(2);
+            drain(&mut ops, &mut live, &mut next, k);
+            let sleeper = next;
+            ops.push(Op::Acquire(next, 1 + ch.below(2)));
+            live.push(next);
+            next += 1;
+            let jump = (1 + ch.below(2 * burst + 3)) as u64 * r + ch.pick(&[0u64, 0, r / 2]);
+            let mut g: Vec<Op> = (0..1 + ch.below(held)).map(|i| Op::Release(first + i)).collect();
+            if ch.chance(3, 4) {
+                g.push(Op::Advance(jump));
+            } else {
+                g.insert(0, Op::Advance(jump));
+            }
+            ops.push(Op::Group(g));
+            if ch.chance(2, 3) {
+                ops.push(Op::Release(sleeper));
+            }
+            let k = ch.below(2 * burst + 4);
+            drain(&mut ops, &mut live, &mut next, k);
+            continue;
+        }
+        if ch.chance(1, 12) {
+            let k = 1 + ch.below(burst + 2);
+            drain(&mut ops, &mut live, &mut next, k);
+            continue;
+        }
         ops.push(match ch.below(10) {
             0 | 1 | 2 | 3 => {
                 let p = match ch.below(8) {
@@ -82,6 +132,28 @@ fn gen_case(ch: &mut Choices) -> Case {
                 Op::Burst(v)
             }
             5 | 6 if !live.is_empty() => Op::Release(ch.pick(&live)),
+            7 if !live.is_empty() && ch.chance(1, 2) => {
+                let k = 2 + ch.below(3);
+                let mut v = vec![];
+                for _ in 0..k {
+                    v.push(match ch.below(5) {
+                        0 => {
+                            live.push(next);
+                            next += 1;
+                            Op::Acquire(next - 1, 1 + ch.below(burst))
+                        }
+                        1 => Op::Cancel(ch.pick(&live)),
+                        2 | 3 => Op::Release(ch.pick(&live)),
+                        _ => Op::Advance(match ch.below(4) {
+                            0 => r,
+                            1 => 2 * r,
+                            2 => 3 * r + r / 2,
+                            _ => (burst as u64 + 2) * r,
+                        }),
+                    });
+                }
+                Op::Group(v)
+            }
             _ => Op::Advance(match ch.below(7) {
                 0 => 0,
                 1 => r / 2,
@@ -152,6 +224,16 @@ async fn run_program(case: &Case, skip: &BTreeSet<usize>, drain: bool) -> Result
                     }
                     out
                 }
+                Op::Group(v) => {
+                    let mut out = vec![];
+                    for (k, o) in v.iter().enumerate() {
+                        out.push(o.clone());
+                        if k + 1 < v.len() {
+                            out.push(Op::Burst(vec![]));
+                        }
+                    }
+                    out
+                }
                 o => vec![o.clone()],
             })
             .collect();
@@ -164,7 +246,7 @@ async fn run_program(case: &Case, skip: &BTreeSet<usize>, drain: bool) -> Result
         }
         for (i, op) in expanded.iter().enumerate() {
             match op {
-                Op::AcquireCancel(..) => unreachable!(),
+                Op::AcquireCancel(..) | Op::Group(_) => unreachable!(),
                 Op::Burst(_) => continue,
                 Op::Acquire(id, p) => {
                     if skip.contains(id) {
@@ -295,7 +377,7 @@ async fn run_program(case: &Case, skip: &BTreeSet<usize>, drain: bool) -> Result
     Ok((timeline, cancelled_before_grant))
 }
 
-fn check(case: &Case, st: &mut Stats) -> Result<(), String> {
+pub fn check(case: &Case, st: &mut Stats) -> Result<(), String> {
     det::run(|| async {
         let none = BTreeSet::new();
         let (tl, cancelled) = run_program(case, &none, true).await?;
@@ -307,7 +389,13 @@ fn check(case: &Case, st: &mut Stats) -> Result<(), String> {
             .into_iter()
             .filter(|id| case.ops.iter().any(|o| matches!(o, Op::AcquireCancel(x, _) if x == id)))
             .collect();
-        if !cancelled.is_empty() {
+        // A step that cancels a wait and moves the clock / returns permits at the same instant is a genuine race
+        // (either outcome is allowed and other waiters may tip it), so such programs are outside the relation.
+        let racy = case.ops.iter().any(|o| matches!(o, Op::Group(v) if v.iter().any(|x| matches!(x, Op::Cancel(_)))));
+        if racy {
+            st.class("cancel_races_with_clock_or_release");
+        }
+        if !cancelled.is_empty() && !racy {
             let (tl2, _) = run_program(case, &cancelled, true).await.map_err(|e| format!("without the cancelled waits: {e}"))?;
             if tl.grants != tl2.grants {
                 return Err(format!(
@@ -324,6 +412,17 @@ fn check(case: &Case, st: &mut Stats) -> Result<(), String> {
             match op {
                 Op::Acquire(..) | Op::AcquireCancel(..) => waiting += 1,
                 Op::Burst(v) => waiting += v.len() as i32,
+                Op::Group(v) => {
+                    waiting += v.iter().filter(|o| matches!(o, Op::Acquire(..))).count() as i32;
+                    let rel = v.iter().position(|o| matches!(o, Op::Release(_)));
+                    let adv = v.iter().rposition(|o| matches!(o, Op::Advance(_)));
+                    if let (Some(r), Some(a)) = (rel, adv) {
+                        if r < a && waiting >= 2 {
+                            st.class("release_and_clock_jump_within_one_step");
+                            nontrivial = true;
+                        }
+                    }
+                }
                 Op::Release(_) if waiting >= 2 => nontrivial = true,
                 _ => {}
             }
@@ -358,7 +457,7 @@ pub struct SvcCase {
     ping: bool,
 }
 
-fn gen_svc(ch: &mut Choices) -> SvcCase {
+pub fn gen_svc(ch: &mut Choices) -> SvcCase {
     SvcCase {
         burst: 1 + ch.below(5),
         refresh_ms: ch.pick(&[1u64, 100, 1000]),
@@ -398,7 +497,7 @@ impl hook::ConsensusHandler for SlowHandler {
     }
 }
 
-fn check_svc(case: &SvcCase, st: &mut Stats) -> Result<(), String> {
+pub fn check_svc(case: &SvcCase, st: &mut Stats) -> Result<(), String> {
     det::run(|| async {
         let life = det::Life::new();
         let ctx = life.child();
